@@ -20,6 +20,7 @@ import numpy as np
 
 import core
 import gridw
+import poke
 import oracle
 import wire
 
@@ -163,6 +164,8 @@ class PlaceSession:
                              barrier_encodings=set(o["barrier"]), free_encodings=set(o["free"]),
                              cluster_barriers=bool(o["cluster"]), scatter_free_agents=bool(o["scatter"]), **kw)
         self.stat = self.w.stat_wire()
+        poke.rejected(self.state, [world, kind, o])
+        poke.rejected(self.w.grid, [kind, o, world], only={"overlapping"})
 
     def set_target_ipos(self, pos):
         """re-assign the target agent's initial position through the public setter (between resets)"""
@@ -185,6 +188,8 @@ class PlaceSession:
             self.state.cluster_barriers = bool(o["cluster"])
             self.state.scatter_free_agents = bool(o["scatter"])
         self.o = o
+        self._pokes = getattr(self, "_pokes", 0) + 1
+        poke.rejected(self.state, [o, self._pokes, self.kind])
 
     def reset(self, tape):
         """returns (pre_dyn, outcome_wire, recorded generate_maze calls)"""
